@@ -13,8 +13,11 @@ Four parts, all executed on the real clikit classes (DESIGN.md '### C11'):
          ANSI/plain: the stream receives text + exactly one newline.
  (d) E2  explicit-state exploration of all indentation scope histories with nesting depth <= D
          (open io/output/error_output x set/increment x n, close normally / by exception) against a
-         reference indentation stack, plus a no-dedup run and all pure nestings as real `with`
-         statements with every raise/catch level.
+         reference indentation stack; full-vars fingerprints, *global* deduplication (layered_bfs below:
+         one parallel fan-out per BFS level, because mc.explore deduplicates per worker share and then
+         cannot tell that the graph closed), run until the frontier is empty = the verdict holds for
+         histories of any length within the nesting bound.  Plus a no-dedup run through mc.explore and all
+         pure nestings as real `with` statements with every raise/catch level.
 
 Decisions about what is NOT demanded (statement silent):
  * unknown tags: only that all renderings agree and that the text is the constructed one with the
@@ -24,7 +27,11 @@ Decisions about what is NOT demanded (statement silent):
    to the styles used in the message appears;
  * the trailing reset sequence: only its effect (text after the styled text is undecorated);
  * texts that themselves end in '\\n' for line-writing methods (write_line keeps it, write_line_raw strips it);
- * raw writes and section outputs under indentation; whether Indent.__exit__ swallows exceptions.
+ * raw writes and section outputs under indentation; whether Indent.__exit__ swallows exceptions;
+ * Output.add_style / IO.add_style (inherited from Formatter, raise NotImplementedError): styles are added on the formatter.
+Demanded although the statement only says "non-empty lines are prefixed": an empty line of the message stays
+empty under indentation (anchor: "number of spaces prefixed to each non-empty line"); own signature
+d:empty-line-indented so that it can be told apart.
 """
 import inspect
 import itertools
